@@ -60,6 +60,7 @@ def run(ctx, col, tier):
     col.guard(sentinels, ctx, col)
     col.guard(rank, ctx, col)
     col.guard(bif, ctx, col)
+    col.guard(bif_by_value, ctx, col)
     col.guard(dispatch, ctx, col)
     from ..rules import smalllints2 as _s2
     _s2.run_clip(ctx, col, ('swcgeom.core.swc_utils.normalizer', 'swcgeom.core.swc_utils.io'))
@@ -182,6 +183,57 @@ def _is_mask(d, e) -> bool:
             if isinstance(n, ast.Assign) and norm_src(n.targets[0]) == e.id:
                 return norm_src(n.value).replace(" ", "") in ("df[names.pid]==-1",)
     return False
+
+
+def bif_by_value(ctx, col):
+    """R-BIFVAL: is_bifurcate folded over every rooted tree of up to seven nodes, the two-rooted forests made from the trees of up to five nodes, and both settings of exclude_root
+    (sa/objfold.py interprets the function over plain lists / dicts): the answer is `no node other than an exempt root has more than two children`."""
+    from ..objfold import Budget, ObjEval, Unsupported, small_trees
+    repo = ctx.repo
+    col.rule("R-BIFVAL", "is_bifurcate folded exactly over all 874 rooted trees of up to seven nodes, the two-rooted forests derived from the trees of up to five nodes, and exclude_root on / off: "
+             "True iff no node other than an exempt root has more than two children -- whatever the loop looks like (an early return on the first crowded node is seen: a root with three "
+             "children met before a crowded inner node)", floor=1, exhaustive=True)
+    d = repo.get_def(f"{CHK}.is_bifurcate")
+    tables = [list(p) for p in small_trees(7)]
+    for p in small_trees(5):
+        for i in range(1, len(p)):
+            q = list(p)
+            q[i] = -1
+            tables.append(q)
+    bad = und = None
+    n_w = 0
+    params = [a.arg for a in d.node.args.args + d.node.args.kwonlyargs]
+    for pid in tables:
+        ids = list(range(len(pid)))
+        kids = {i: sum(1 for p in pid if p == i) for i in ids}
+        for ex in (True, False):
+            want = all(k <= 2 or (ex and pid[i] == -1) for i, k in kids.items())
+            try:
+                got = ObjEval(pid).run_free(d.node, {params[0]: [ids, list(pid)], "exclude_root": ex})
+            except (Unsupported, Budget) as x:
+                und = f"{type(x).__name__}: {x}"
+                break
+            except Exception as x:  # noqa: BLE001
+                und = f"{type(x).__name__}: {x}"
+                break
+            n_w += 1
+            if bool(got) != want or not isinstance(got, bool):
+                if isinstance(got, bool):
+                    bad = (pid, ex, got, want)
+                else:
+                    und = f"the function returns {got!r}, not a bool"
+                break
+        if bad or und:
+            break
+    what = "is_bifurcate: no node other than an exempt root has more than two children"
+    if bad is not None:
+        pid, ex, got, want = bad
+        col.bad("R-BIFVAL", d.qualname, d.loc(), what, f"parents {pid}, exclude_root={ex}: the function answers {got}, the table {'has no' if want else 'has a'} node with more than two children "
+                f"that is not an exempt root -- the answer is taken from the first crowded node met, later ones are never looked at", stmt="bifval", definite=True)
+    elif und is not None:
+        col.unresolved("R-BIFVAL", d.qualname, d.loc(), what, f"cannot fold the function: {und}", stmt="bifval")
+    else:
+        col.ok("R-BIFVAL", d.qualname, d.loc(), what, f"{n_w} (table, option) pairs folded", stmt="bifval")
 
 
 def rank(ctx, col):
